@@ -20,8 +20,14 @@ func VerifC19Proxy() {
 	pt, _ := CompileMatch("/pass/*")
 	af, _ := CompileMatch("/fwd/*")
 	s.Passthroughs, s.AlwaysForward = append(s.Passthroughs, pt), append(s.AlwaysForward, af)
-	if rt.Choose("tracked.db.exists", 2) == 1 {
+	switch rt.Choose("tracked.db", 3) {
+	case 1: // the tracked database does not exist on this node
 		s.DBName = "otherdb"
+	case 2: // it exists but is still empty (registered, initial snapshot not applied yet)
+		edb, err := store.CreateDBIfNotExists("emptydb")
+		rt.Check(err == nil && edb.PageN() == 0 && edb.Pos().TXID == 0, "harness: empty placeholder database")
+		s.DBName = "emptydb"
+		db = edb
 	}
 
 	method := []string{"GET", "HEAD", "POST", "PUT", "DELETE", "PATCH"}[rt.Choose("method", 6)]
@@ -39,7 +45,11 @@ func VerifC19Proxy() {
 	// replication applies transactions while the proxy waits
 	rt.OnTick = func() {
 		if rt.Bool("replication.applies") {
-			litefs.VerifSetPos(db, uint64(db.Pos().TXID)+1, rt.U64("applied.chk"))
+			next := uint64(db.Pos().TXID) + 1
+			if db.Pos().TXID == 0 {
+				next = 41 + uint64(rt.Choose("snapshot.txid", 3)) // the initial snapshot lands at some position
+			}
+			litefs.VerifSetPos(db, next, rt.U64("applied.chk"))
 		}
 	}
 	// the application behind the proxy
@@ -66,7 +76,7 @@ func VerifC19Proxy() {
 	isRead := method == "GET" || method == "HEAD"
 	passthrough := path == "/pass/x"
 	forwarded := isRead && path == "/fwd/x"
-	tracked := s.DBName == "db"
+	tracked := s.DBName != "otherdb"
 	switch {
 	case passthrough:
 		rt.Check(upstream == 1, "passthrough requests go straight to the application")
